@@ -341,7 +341,28 @@ def _hashmap(vm, m, c, args):
 
 def _vec(vm, m, c, args):
     A = vm.alg
+    mm = re.match(r'^VecDeque::<.*?>::(\w+)(::<.*>)?$', c)
+    if mm:      # std::collections::VecDeque as a sequence (front = index 0)
+        n = mm.group(1)
+        if n in ('new', 'with_capacity'): return ret(m, Seq(()))
+        r = args[0]; s = vm.read_at(m, r.cell, r.path)
+        if n == 'len': return ret(m, len(s.items))
+        if n == 'is_empty': return ret(m, len(s.items) == 0)
+        if n == 'push_back': vm.write_at(m, r.cell, list(r.path), Seq(s.items + (args[1],))); return ret(m, UNIT)
+        if n == 'push_front': vm.write_at(m, r.cell, list(r.path), Seq((args[1],) + s.items)); return ret(m, UNIT)
+        if n == 'pop_front':
+            if not s.items: return ret(m, NONE())
+            vm.write_at(m, r.cell, list(r.path), Seq(s.items[1:])); return ret(m, SOME(s.items[0]))
+        if n == 'pop_back':
+            if not s.items: return ret(m, NONE())
+            vm.write_at(m, r.cell, list(r.path), Seq(s.items[:-1])); return ret(m, SOME(s.items[-1]))
+        if n == 'clear': vm.write_at(m, r.cell, list(r.path), Seq(())); return ret(m, UNIT)
+        if n == 'iter':
+            from .vm import Iter
+            return ret(m, Iter([Ref(r.cell, r.path + (('i', k),)) for k in range(len(s.items))]))
+        raise Unmodelled('VecDeque method ' + c)
     if re.match(r'^Vec::<.*>::new$', c) or re.match(r'^Vec::<.*>::with_capacity$', c): return ret(m, Seq(()))
+    if re.match(r'^std::vec::from_elem::<(f64|u64|usize|i64|bool|u32)>$', c) and isinstance(args[1], int): return ret(m, Seq([args[0]] * args[1]))
     mm = re.match(r'^Vec::<.*?>::(\w+)(::<.*>)?$', c) or re.match(r'^(?:std::)?vec::Vec::<.*?>::(\w+)(::<.*>)?$', c)
     if mm:
         n = mm.group(1); r = args[0]
